@@ -45,6 +45,7 @@ package verifspec
 //@ property C13
 //@   word 32
 //@   requires wg.counter >= 0 && wg.counter + delta <= 2147483647 && wg.counter + delta >= -2147483648
+//@   assigns wg.counter
 //@   panics_if wg.counter + delta < 0
 //@   ensures wg.counter == old(wg.counter) + delta
 //@ func nosync.WaitGroup.Done
